@@ -641,6 +641,18 @@ def analyse_all(cases, stats):
                 else:
                     add_v("C18", prob, c, {"impl_normal": i[0][:2000], "expected_normal": m[M_EXPN][:2000]})
 
+        elif wf and o["import_sign"] is None and re.search(r"@(?i:import)\b", unq(c.css[1:-1])):
+            # "without an import sign, `@import` rules pass through with their meaning intact": the rule is an ordinary
+            # at-rule, its tokens (and the white space that carries meaning inside its conditions) must be the expected ones
+            agg["c18_passthrough_imports"] += 1
+            if m[M_CIN] != "1":
+                if known:
+                    for k in kn:
+                        known_hits["C18"][k] += 1
+                else:
+                    add_v("C18", "a sheet with a pass-through @import does not conform to the expected token stream (meaning of the import or of a neighbour changed)",
+                          c, {"impl_normal": i[0][:2000], "expected_normal": m[M_EXPN][:2000]})
+
         # ---------------- C19
         if not map_eq and text_eq:
             agg["c19_model_map_disagree"] += 1
